@@ -5,11 +5,11 @@ CONF = dict(
     families=[('tx', 400, 6000)],
     compare=['ser', 'sz0', 'sz1', 'w', 'vs', 'dw', 'dvs', 'hasw'],
     trusted=['modelled by hand: SerializeSize, baseSize, Weight, VirtualSize, DiscountWeight, DiscountVirtualSize, TxInput/TxOutput/TxWitness.SerializeSize, VarIntSerializeSize, VarSliceSerializeSize'],
-    explanation='theorems: size_tx aw = length(ser_tx aw) for every transaction whose fixed-width fields have their fixed widths; weight/vsize definitions; discount bounds and rule.',
+    explanation='theorems: size_tx aw = length(ser_tx aw) for every transaction whose fixed-width fields have their fixed widths; weight/vsize definitions; discount bounds and rule for the weight and for the virtual size (rounded-up quotient; the truncating division of Go gives the same number on the domain of the rule).',
 )
 
 TEXT = dict(
-    text='Machine-checked proof (Coq): size_tx = length of the corresponding serialization for every transaction with 32-byte hashes/issuance fields, weight = 3*base+total, vsize = ceil(weight/4), discount bounds and the explicit-output rule under stated side conditions; model tied to the code by differential runs over boundary-length transactions.',
+    text='Machine-checked proof (Coq): size_tx = length of the corresponding serialization for every transaction with 32-byte hashes/issuance fields, weight = 3*base+total, vsize = ceil(weight/4), discount bounds and the explicit-output rule under stated side conditions, for the discounted weight and for the discounted virtual size (ceiling of a quarter of the discounted weight, equal to the undiscounted one without confidential outputs, equal to the virtual size of the explicitised transaction, also with the truncating division Go performs); model tied to the code by differential runs over boundary-length transactions.',
     note=COMMON_NOTE + 'Modelled by hand: SerializeSize family, Weight, VirtualSize, DiscountWeight/VirtualSize.',
     technique='Coq proof (size = length of encoding, arithmetic lemmas) + differential check',
 )
